@@ -323,7 +323,7 @@ class Drawn:
                 self.unfit = self.unfit or f"leaf {p} needs {nc}x{nr}, was given {lc.cols()}x{lc.rows()}"
         if self.unfit:
             return
-        for p, w in tree.nodes.items():
+        for p, w in sorted(tree.nodes.items(), key=lambda kv: len(kv[0])):  # parents first
             if w._background:
                 continue
             if w._last is None:
